@@ -199,6 +199,8 @@ theorem runBudget_preserves (cfg : Cfg n) (Q : AMat Int n → Prop) (R R' : AMat
   have h0 := mkState_inv cfg.und cfg.src R hd hs hsrc
   unfold runBudget at hrun
   simp only [bind, Except.bind] at hrun
+  split at hrun
+  · cases hrun      -- the guard raised: not an `.ok` run
   cases hden : cfg.attDen with
   | some den =>
     simp only [hden] at hrun
@@ -294,6 +296,8 @@ theorem runBudget_state (cfg : Cfg n) (R R' : AMat Int n) (itr eff : ℕ) (ds re
     ∃ s : St n (edgeCells cfg.src R).toArray.size, P s ∧ s.R = R' := by
   unfold runBudget at hrun
   simp only [bind, Except.bind] at hrun
+  split at hrun
+  · cases hrun      -- the guard raised: not an `.ok` run
   cases hden : cfg.attDen with
   | some den =>
     simp only [hden] at hrun
